@@ -199,6 +199,72 @@ func runC13Tolerant(t *fw.T) {
 	if t.WantSample() && len(rd.Src) < 200 && (rd.Fuses > 0 || rd.CutBraces > 0) {
 		t.Sample(map[string]any{"stratum": "tolerant", "source": rd.Src, "fused": rd.Fuses, "open_blocks": rd.CutBraces})
 	}
+	if t.Index%4 == 0 {
+		checkOpenFunctionExpression(t, r)
+	}
+}
+
+// checkOpenFunctionExpression: the block left open at the end of the input is the body of a function EXPRESSION (the
+// initialiser of the last `let`, or the right-hand side of the last assignment), possibly with open blocks inside it:
+// tolerant mode accepts the text without error and keeps every statement, as it does for declarations and plain blocks.
+func checkOpenFunctionExpression(t *fw.T, r *rand.Rand) {
+	g := gen.NewSyn(r, gen.SynOpts{ExprDepth: 1 + r.IntN(2), StmtDepth: 1 + r.IntN(2), MaxStmts: 1 + r.IntN(3)})
+	body := g.Program().Kids
+	if r.IntN(2) == 0 {
+		body = append(body, &gen.Node{K: gen.KIf, Kids: []*gen.Node{gen.Id("c"), {K: gen.KBlock, Kids: []*gen.Node{g.Stmt(0, 1)}}}})
+	}
+	fn := &gen.Node{K: gen.KFunc, Params: []string{"p"}, Kids: body}
+	if r.IntN(2) == 0 {
+		fn.Name = "g"
+	}
+	last := gen.Let("h", fn)
+	if r.IntN(2) == 0 {
+		last = gen.ExprStmt(gen.Asg("=", gen.Id("h"), fn))
+	}
+	full := gen.Prog(g.Stmt(0, 1), last)
+	want := full.S()
+	rd := gen.Render(full, r, gen.EmitOpts{}, gen.Layout{Semi: 0, Space: 1, StmtNL: 1, NoTrailingNL: true})
+	// the closing braces at the very end of the text that close the function body or a block inside it (by the renderer's
+	// token table - not the brace of an object literal)
+	src, cut := rd.Src, 0
+	for i := len(rd.Toks) - 1; i >= 0 && cut < 2; i-- {
+		tk := rd.Toks[i]
+		if tk.Text != "}" || tk.Node == nil || (tk.Node.K != gen.KFunc && tk.Node.K != gen.KBlock) {
+			break
+		}
+		if cut > 0 && r.IntN(2) == 0 {
+			break
+		}
+		src = strings.TrimRight(rd.Src[:tk.Off], " \t\r\n")
+		cut++
+	}
+	if cut == 0 {
+		return
+	}
+	for _, m := range []Mode{{Tolerant: true}, {Tolerant: true, Smart: true}} {
+		if m.Smart && hasLineLeadingBracket(src) {
+			continue
+		}
+		wit := func() map[string]any {
+			return map[string]any{"source": src, "mode": m.String(), "closing_braces_cut": cut, "expected_tree": want}
+		}
+		var po ParseOut
+		if !t.Guard("tolerant parse of an open function expression", wit, func() { po = parse(src, m) }) {
+			continue
+		}
+		t.Count("open_function_expression_bodies", 1)
+		if len(po.Errors) > 0 {
+			w := wit()
+			w["errors"] = po.Errors
+			t.Violate("tolerant-rejects-recoverable", "open function expression/"+errKey(po.Errors[0].Message), "tolerant mode reports an error when the block left open at end of input is the body of a function expression: "+po.Errors[0].Message+": "+gen.Describe(src), w)
+			continue
+		}
+		if got := norm.S(po.Prog); got != want {
+			w := wit()
+			w["got_tree"] = got
+			t.Violate("tolerant-loses-statements", "open function expression/"+diffKey(want, got), "tolerant mode does not keep every statement when the block left open at end of input is the body of a function expression: "+gen.Describe(src), w)
+		}
+	}
 }
 
 // unlessBuilder: a builder with a plugin statement `unless (cond) stmt`, parsed into the same node as `while (cond) stmt`.
